@@ -309,6 +309,58 @@ fn run_ranges(eng_threads: usize, thorough: bool, seed: u64, report: &mut Report
         wide!(check_u64, u64, 8);
         wide!(check_isize, isize, 9);
         wide!(check_usize, usize, 10);
+        // related lengths in consecutive draws on one thread: a range of L values directly followed by ranges of
+        // L mod 2^32, L mod 2^16, L >> 32 and L - 2^32 values (whatever a draw leaves behind about "the last length" -
+        // a cached reciprocal, a cached rejection threshold - under a key that keeps only part of L)
+        let r = catch(|| {
+            for &big in &[(1u64 << 32) + 6, (1 << 32) + 255, (1 << 32) + 65_536 + 17, (1 << 33) + 100, (1 << 40) + 3, (1 << 48) + 200, u64::MAX - 5, (1 << 32) + (1 << 16)] {
+                for &raw in &[u64::MAX - 1, u64::MAX, 0, 1, 0x8000_0000_0000_0001, 12345678901234567] {
+                    let x = lib!((0u64..big).gen_from_u64(raw));
+                    cx.rep.inc("related_length_draws");
+                    if x != raw % big {
+                        cx.rep.violation("related_lengths:u64".to_string(), Json::obj().set("what", "draw from a wide u64 range is not start + raw mod len").set("len", big).set("raw", raw).set("got", x), vec![]);
+                    }
+                    for small in [big & 0xFFFF_FFFF, big & 0xFFFF, big >> 32, big.wrapping_sub(1 << 32) & 0xFF] {
+                        if small == 0 {
+                            continue;
+                        }
+                        cx.rep.inc("related_length_draws");
+                        if small <= 200 {
+                            let s = 10u8;
+                            let y = lib!((s..s + small as u8).gen_from_u64(raw));
+                            if y as u64 != s as u64 + raw % small {
+                                cx.rep.violation(
+                                    "related_lengths:u8".to_string(),
+                                    Json::obj().set("what", "a draw from a small range directly after a draw from a range of related length is not start + raw mod len").set("previous_len", big).set("len", small).set("raw", raw).set("got", y as u64).set("want", s as u64 + raw % small),
+                                    vec![],
+                                );
+                            }
+                            let z = lib!((-100i8..(-100 + small as i64) as i8).gen_from_u64(raw));
+                            if z as i64 != -100 + (raw % small) as i64 {
+                                cx.rep.violation("related_lengths:i8".to_string(), Json::obj().set("previous_len", big).set("len", small).set("raw", raw).set("got", z as i64), vec![]);
+                            }
+                        } else {
+                            let y = lib!((3u64..3 + small).gen_from_u64(raw));
+                            if y != 3 + raw % small {
+                                cx.rep.violation("related_lengths:u64".to_string(), Json::obj().set("previous_len", big).set("len", small).set("raw", raw).set("got", y), vec![]);
+                            }
+                        }
+                        // and the wide one again
+                        let x2 = lib!((0u64..big).gen_from_u64(raw));
+                        if x2 != x {
+                            cx.rep.violation("related_lengths:u64".to_string(), Json::obj().set("what", "the same draw from the wide range differs after a draw from a range of related length").set("len", big).set("raw", raw), vec![]);
+                        }
+                    }
+                }
+            }
+        });
+        if let Err(p) = r {
+            if p.in_lib {
+                cx.rep.violation("panic:related_lengths".to_string(), Json::obj().set("panic", p.msg.as_str()).set("at", format!("{}:{}", p.file, p.line)), vec![]);
+            } else {
+                cx.rep.inconclusive(format!("harness panic at {}:{}: {}", p.file, p.line, p.msg));
+            }
+        }
     }
     report.merge(rep);
 }
@@ -546,6 +598,11 @@ fn run_shuffle_census_t<E: Clone>(n: usize, kind: usize, seeds: u64, base: u64, 
             let mut g = Rng::from_seed(seed_family(kind, i, base));
             let mut ve: Vec<E> = (0..n as u8).map(make).collect();
             lib!(g.shuffle(&mut ve));
+            if base % 2 == 1 {
+                // the same slice shuffled twice with the same generator: the composition of two independent uniform
+                // rearrangements is uniform again (it is not if the second shuffle replays the draws of the first)
+                lib!(g.shuffle(&mut ve));
+            }
             let v: Vec<u8> = ve.iter().map(key).collect();
             let mut sorted = v.clone();
             sorted.sort();
